@@ -213,12 +213,12 @@ PROPS["C13"] = {
 
 # ------------------------------------------------------------------------------------------------------------ C11
 PROPS["C11"] = {
-    "files": ["src/types.rs", "src/table.rs"],
-    "functions": ["Range::matches", "ClaimTable::lookup", "ClaimTable::housekeep", "Address as PartialEq"],
+    "files": ["src/types.rs", "src/table.rs", "src/cloud.rs"],
+    "functions": ["Range::matches", "ClaimTable::lookup", "ClaimTable::housekeep", "Address as PartialEq", "GenericCloud::handle_interface_data (routing decision, extracted slice)"],
     "bounds": "Range::matches: none (all bases, addresses, lengths 0..=16, prefix lengths 0..=255). lookup: tables of k <= 3 claims "
               "with symbolic bases / prefix lengths / owners / expiries, address lengths {1,4,6,8,16}, one lookup from an empty or "
               "one-entry cache, symbolic clock and timeouts. sweep: 2 cached decisions + 2 claims with arbitrary expiries",
-    "outside": "router-drops / switch-floods at node level, the statistics file; tables with more than 3 claims; 'reused no longer "
+    "outside": "router-drops / switch-floods beyond the routing decision of handle_interface_data (send_msg / broadcast_msg / the counters are recorders), the statistics file; tables with more than 3 claims; 'reused no longer "
                "than the switch timeout' is read at sweep granularity (lookup itself does not compare expiries)",
     "assumptions": TABLE_ASSUME,
     "obligations": [
@@ -231,6 +231,11 @@ PROPS["C11"] = {
         K("c11_lookup_prefers_cache", "a cached decision is returned as is and not refreshed"),
         K("c11_sweep_removes_exactly_expired", "the sweep keeps exactly the claims and decisions whose expiry is not in the past"),
         K("c11_swept_decision_is_not_reused", "after the sweep an expired decision is never returned"),
+        K("c11_routing_step_p2", "routing decision of GenericCloud::handle_interface_data (the `match self.table.lookup(dst)` extracted from src/cloud.rs; "
+          "lookup answer prepared, send/broadcast/connect recorded; 2 peers with symbolic addresses): a decision => DATA to exactly that address; "
+          "no decision => router mode sends nothing and counts exactly the payload as dropped, switch/hub mode broadcasts once and counts nothing; "
+          "a decision pointing at a non-peer is repaired (claims removed, address re-dialled)", role="c11_routing_step"),
+        K("c11_routing_step_p0", "same, no peer", role="c11_routing_step"),
     ],
 }
 
@@ -255,6 +260,7 @@ PROPS["C12"] = {
         K("c12_remove_claims_k2", "after remove_claims(P) nothing names P; Q's entries unchanged and in order"),
         K("c12_remove_claims_k0", "", T), K("c12_remove_claims_k1", "", T), K("c12_remove_claims_k3", "", T),
         K("c11_sweep_removes_exactly_expired", "claims not re-announced are gone once their expiry has passed"),
+        K("c11_routing_step_p2", "repair path: a table decision that names a non-peer has its claims removed and the address re-dialled at the first payload (extracted `match self.table.lookup(dst)` of handle_interface_data)", role="c11_routing_step"),
     ],
 }
 
